@@ -25,7 +25,8 @@ RULE = ("in-process cases = pairs of conditions over 4 typed integer parameters 
         "against the truth values of the flagged node in all UB-free native runs")
 EXPLANATION = ("Proved (Lean, all expressions, all environments, C17 semantics with UB as 'no value'): soundness of the model of "
                "isSameExpression and isOppositeCond(isNot=false/true) under decidable side conditions, of the out-of-type-range "
-               "verdict and of the bit-and/bit-or comparison verdict; counterexample theorems where the code's rule is unsound. "
+               "verdict and of the bit-and/bit-or comparison verdict; counterexample theorems where the code's rule is unsound "
+               "(and about the pre-fix functions of the fixed findings F03a/F03c). "
                "Tie: the real functions run in-process on the real Tokenizer's AST against the model (exact agreement), the "
                "model's semantics against gcc. Partial: the theorems cover the pure integer fragment (no calls, casts, floats, "
                "pointers, followVar, containers); knownConditionTrueFalse and the flow part of multiCondition2 (modification "
@@ -604,11 +605,9 @@ REL_NAMES = ["same", "oppF", "oppT"]
 
 def classify_rel(rel, flags):
     """known-finding key of a refuted in-process relation; `flags` = the model's side-condition letters of the two trees
-    (annOK eqNeSafe cmpSafe vtOK).  A refutation under all side conditions contradicts a theorem: never a known class."""
+    (annOK cmpSafe vtOK).  A refutation under all side conditions contradicts a theorem: never a known class."""
     f1, f2 = flags
-    if f1[1] == "F" or f2[1] == "F":
-        return "F03a:isSameExpression-eqne-known-not-01"
-    if rel == "oppF" and (f1[2] == "F" or f2[2] == "F"):
+    if rel == "oppF" and (f1[1] == "F" or f2[1] == "F"):
         return "F03b:isOppositeCond-known-values-inexact-comparison"
     return None
 
@@ -625,11 +624,9 @@ def classify_finding(fid, msg, cmpnode, src, flag):
         # the Known value of an unsigned constant expression is folded in 64 bits without wrap-around (C01 F5)
         return "F03f:constant-folded-without-unsigned-wrap"
     if fid == "compareValueOutOfTypeRangeError":
-        return "F03e:compareValueOutOfTypeRange-inexact-comparison" if flag[2] == "F" else None
+        return "F03e:compareValueOutOfTypeRange-inexact-comparison" if flag[1] == "F" else None
     if fid == "comparisonError":
-        if cmpnode.kids[0].k != "-":
-            return "F03c:comparison-known-left-comparator-not-swapped"
-        if "(X |" in msg or flag[2] == "F":
+        if "(X |" in msg or flag[1] == "F":
             return "F03d:comparison-bitop-inexact"
     return None
 
@@ -708,7 +705,7 @@ def run_inprocess(ctx, res, n_pairs, n_inputs, corpus):
         impl_c.append("%s %s # %s" % (h["r12"], h["r21"], h["raw_findings"]))
         model_c.append(" # ".join(mparts[:2]))
         ops_c.append(dops[j])
-        covered = c["flags"] and all(f == "TTTT" for f in c["flags"])
+        covered = c["flags"] and all(f == "TTT" for f in c["flags"])
         res.count("inprocess:theorem-hypotheses-hold" if covered else "inprocess:outside-hypotheses")
         for k, name in enumerate(REL_NAMES + ["oppExpr"]):
             if h["r12"][k] == "T" or h["r21"][k] == "T":
@@ -853,7 +850,7 @@ def run_inprocess(ctx, res, n_pairs, n_inputs, corpus):
                         (cl[1], cl[2], text_of_hnode(c["src"], cl[4]), c["src"], inp, bad[1]))
                 rd = dict(kind="inprocess-finding", id=cl[1], msg=cl[2], col=cl[4].col, lang=c["lang"], params=c["params"],
                           src=c["src"], input=c["vecs"][j])
-            if cl[0] == "rel" and all(f == "TTTT" for f in c["flags"]):
+            if cl[0] == "rel" and all(f == "TTT" for f in c["flags"]):
                 key = None     # contradicts a theorem: model, semantics or tie is wrong - never absorbed by a known finding
             res.violation(what, rd, concrete=True, key=key)
     return cases, didx
@@ -1341,20 +1338,15 @@ PAIR_IDS = {"oppositeInnerCondition", "identicalInnerCondition", "overlappingInn
 
 
 def classify_cli(cl, f, lines):
-    """known-finding key of a refuted CLI verdict (None = not a listed class: reported as a new violation)"""
+    """known-finding key of a refuted CLI verdict (None = not a listed class: reported as a new violation).
+    The former classes F03a (isSameExpression), F03c (Known value on the left of a bit test) and F03i (`k - x`, `x * k`
+    in a condition) are fixed in the code and are no classes any more."""
     ptypes = dict(f["params"])
     hz = func_hazards(f["stmts"], ptypes)
-    n = cl["node"]
-    def closed(x):
-        return x.kind == "lit" or (x.kind != "var" and all(closed(k) for k in x.kids))
-    if cl["id"] == "comparisonError" and n.kind == "bin" and closed(n.kids[0]):
-        return "F03c:comparison-known-left-comparator-not-swapped"
     conv = hz - {"bool-compared-with-int", "const-minus-expr", "mul-by-const"}
     if "bool-compared-with-int" in hz and cl["id"] in FLOW_IDS | PAIR_IDS:
-        return "F03a:isSameExpression-eqne-known-not-01"
+        return "F03h:value-flow-bool-compared-with-constant-not-01"
     if not conv:
-        if (hz & {"const-minus-expr", "mul-by-const"}) and cl["id"] in FLOW_IDS | PAIR_IDS:
-            return "F03i:solveExprValue-bound-not-inverted"
         return None
     if cl["id"] == "compareValueOutOfTypeRangeError":
         return "F03e:compareValueOutOfTypeRange-inexact-comparison"
@@ -1367,13 +1359,14 @@ def classify_cli(cl, f, lines):
     return None
 
 
-THEOREMS = ["Cppcheck.CondExpr.same_sound", "Cppcheck.CondExpr.same_sound_sim", "Cppcheck.CondExpr.same_sound_counterexample",
+THEOREMS = ["Cppcheck.CondExpr.same_sound", "Cppcheck.CondExpr.same_sound_sim", "Cppcheck.CondExpr.same_sound_prefix_counterexample",
             "Cppcheck.CondExpr.opposite_sound", "Cppcheck.CondExpr.opposite_not_sound", "Cppcheck.CondExpr.opposite_sound_counterexample",
             "Cppcheck.CondExpr.multiCondition_opposite_sound", "Cppcheck.CondExpr.multiCondition_same_sound",
             "Cppcheck.CondExpr.outOfTypeRange_table_sound", "Cppcheck.CondExpr.outOfTypeRange_interval_sound",
             "Cppcheck.CondExpr.outOfTypeRange_sound", "Cppcheck.CondExpr.outOfTypeRange_counterexample",
             "Cppcheck.CondExpr.bitand_compare_table_sound", "Cppcheck.CondExpr.bitor_compare_table_sound",
-            "Cppcheck.CondExpr.bitand_compare_sound", "Cppcheck.CondExpr.bit_compare_swapped_counterexample",
+            "Cppcheck.CondExpr.bitand_compare_sound", "Cppcheck.CondExpr.bitand_compare_sound_left",
+            "Cppcheck.CondExpr.bit_compare_prefix_counterexample",
             "Cppcheck.CondExpr.eval_inRange"]
 
 
